@@ -45,7 +45,7 @@ def confirm(wt, out, features=""):
     res["existing_ok"] = "38 passed; 0 failed" in o and "FAILED" not in o
     shutil.copy(os.path.join(out, "demo.rs"), os.path.join(wt, "tests", "demo.rs"))
     rc, o = sh("cargo test --offline %s --test demo 2>&1 | tail -25" % feat, wt)
-    res["demo_with_change"] = "fails (as it should)" if ("FAILED" in o or "panicked" in o) else "DOES NOT FAIL: " + o[-400:]
+    res["demo_with_change"] = "fails (as it should)" if ("FAILED" in o or "panicked" in o or "SIGABRT" in o or "test failed" in o) else "DOES NOT FAIL: " + o[-400:]
     sh("git checkout -- . && rm -f tests/demo.rs", wt)
     res["confirmed"] = bool(res["patch_applies"] and res["builds"] and res["existing_ok"] and res["demo_without_change"] == "pass"
                             and res["demo_with_change"].startswith("fails"))
